@@ -158,6 +158,7 @@ def build(tier, seed):
         for dt in LONG_DTS[tier]:
             cases.append({'kind': 'long', 'n': n, 'dt': dt})
     return {
+        'rule_more': "'history' cases %s (first, second record length): the same path written twice then loaded through every loader; results of earlier loads examined after later loads of other files" % ([list(h) for h in HISTORY_LENGTHS],),
         'cases': cases,
         'rule': 'value cases: all value words of length 1..%d over the 7-value alphabet x %d time steps (one pool case '
                 'per (word, dt)); inside each case: 3 labels x 3 savers (save_signal from a Signal, save_signal from an '
